@@ -23,7 +23,7 @@ META = dict(
                 "parent values (sorted parents); a second seeded call from an unrelated generator state is term-equal (seed 0 included); "
                 "reachability: two different source variables can receive different bootstrap rows; argument contract (TypeError / "
                 "ValueError as documented) with symbolic n.",
-    bounds=dict(quick="p <= 2 all DAG patterns x {1 environment of 2 rows, 2 environments of 2 rows} x n in {None, int 1..2, list [1,2]}; p = 3 all patterns with 1 environment of 2 rows, n = 1; argument contract p = 2",
+    bounds=dict(quick="p <= 2 all DAG patterns x {1 environment of 2 rows, 2 environments of 2 rows} x n in {None, int 1..2, list [1,2]}; p = 3 all patterns with 1 environment of 2 rows, n = 1; argument contract p = 2; wide graphs: p = 10 with one child of two parents at all positions",
                 thorough="p <= 2 also with 3 training rows / environments of (2,3) rows; p = 3 with 1-2 environments of 2 rows and n <= 2"),
     outside=["everything inside R (the forest itself)", "pandas proper", "functional other than 'sample'", "p > 3, more than 3 training rows"],
     stubs=["numpy -> symnp", "pandas -> stubs/sympandas.py", "rpy2 + R packages base/drf -> stubs/fake_rpy2.py (nondeterministic forest weights)",
@@ -161,6 +161,51 @@ def h_sample(ctx):
         cl.append(('fitting / sampling with valid arguments must not raise (%s: %s)' % (type(ex).__name__, str(ex)[:100]), False))
     inputs = dict(graph=rows, data=data, n=n, seed=seed)
     return PathResult(outcome, cl, inputs=inputs, call='sample', info=info, reach=reach)
+
+
+def h_wide(ctx):
+    """many variables: one child with two parents at arbitrary (symbolic) positions; one training row per
+    environment, so nothing forks inside the sampler and the column ORDER of fit and query is what is checked"""
+    from stubs import fake_rpy2
+    e = ctx.eng
+    p = ctx.params['p']
+    semi = ctx.mod('sempler.semi')
+    fake_rpy2.reset()
+    a, b, c = e.int('pa1'), e.int('pa2'), e.int('child')
+    for v in (a, b, c):
+        e.assume(v >= 0)
+        e.assume(v < p)
+    e.assume(a < b)
+    e.assume(c != a)
+    e.assume(c != b)
+    ai, bi, ci = int(a), int(b), int(c)
+    w1, w2 = e.real('w1'), e.real('w2')
+    e.assume(w1 != 0)
+    e.assume(w2 != 0)
+    rows = [[0.0] * p for _ in range(p)]
+    rows[ai][ci] = w1
+    rows[bi][ci] = w2
+    data = _data(e, [1], p)
+    cl = []
+    try:
+        net = semi.DRFNet(np.array(rows, dtype=float), [np.array(data[0], dtype=float)])
+        cl.append(('one forest', len(fake_rpy2.FITS) == 1))
+        if len(fake_rpy2.FITS) == 1:
+            f = fake_rpy2.FITS[0]
+            cl.append(('the forest is fitted on the parents\' columns in increasing index order', f['X'].shape == (1, 2) and
+                       G.And(G.T(f['X'][0, 0] == data[0][0][ai]), G.T(f['X'][0, 1] == data[0][0][bi]))))
+        out = net.sample(1, random_state=1)
+        pr = [q for q in fake_rpy2.PREDICTS]
+        cl.append(('one forest query', len(pr) == 1))
+        if len(pr) == 1:
+            nd = pr[0]['newdata']
+            cl.append(('the forest is queried with the synthetic parent values in increasing index order', nd.shape == (1, 2) and
+                       G.And(G.T(nd[0, 0] == out[0][0, ai]), G.T(nd[0, 1] == out[0][0, bi]))))
+        outcome = 'returned'
+    except Exception as ex:
+        outcome = 'raised ' + type(ex).__name__
+        cl.append(('fitting / sampling must not raise (%s: %s)' % (type(ex).__name__, str(ex)[:100]), False))
+    return PathResult(outcome, cl, inputs=dict(graph=rows, data=data, n=1, seed=1), call='sample', info=dict(p=p, parents=[ai, bi], child=ci))
 
 
 CONTRACT = ['graph_list', 'graph_1d', 'graph_cyclic', 'data_not_list', 'data_elem_list', 'data_1d', 'data_cols',
@@ -450,6 +495,9 @@ def obligations(tier):
         d3 = "3 nodes, 1-2 environments of 2 rows, n <= 2"
     ob.append(Obligation('sample_p3', h_sample, c3, "DRFNet fit + sample on every DAG pattern on " + d3, expect=('returned',),
                          reach_expect=('two source variables can receive different bootstrap rows',), weight=100, timeout_ms=120000))
+    pw = 10 if q else 12
+    ob.append(Obligation('sample_wide_p%d' % pw, h_wide, [dict(p=pw)], "%d variables, one child with two parents at arbitrary positions (column order of fit and query)" % pw,
+                         expect=('returned',), weight=20))
     ob.append(Obligation('contract', h_contract, [dict(case=c) for c in CONTRACT], "documented TypeError / ValueError for invalid graph, data and n (symbolic n)",
                          expect=('raised TypeError', 'raised ValueError', 'returned'), weight=1))
     return ob
